@@ -17,6 +17,7 @@ MANIFEST_ENTRY = {
 
 def tasks(tier, seed):
     return [
+        func("bt.core.StrategyBase.flatten"),
         *UPDATE_ALL,
         func("bt.core.SecurityBase.update"),
         func("bt.core.FixedIncomeSecurity.update"),
